@@ -200,7 +200,7 @@ struct RenderW {
         }
         pending.clear();
         if (has_long_exponent(text)) {
-            qsim::set_stall_abandon(true);
+            long_exponent_policy();
             qsim::probe("render.long-exponent");
         }
         ArenaText<C> buf(text);
@@ -449,7 +449,7 @@ struct ConcW {
             values.push_back(v);
         }
         text.set(tmpl);
-        if (has_long_exponent(tmpl)) qsim::set_stall_abandon(true);
+        if (has_long_exponent(tmpl)) long_exponent_policy();
         {
             LibCall lc;
             new (cache.p) Tags();
